@@ -212,6 +212,23 @@ func (k *conc) explore(f *FuncInfo, held uint8, ops int, inGo bool) {
 		return State(s)
 	}}
 	fl.solve(an)
+	type defUnlock struct {
+		pos token.Pos
+		id  lockID
+	}
+	var deferredUnlocks []defUnlock
+	walkOwn(f.Body(), func(nd ast.Node) {
+		d, ok := nd.(*ast.DeferStmt)
+		if !ok {
+			return
+		}
+		if mv, op := mutexField(info, d.Call); mv != nil && (op == "Unlock" || op == "RUnlock") {
+			se := ast.Unparen(d.Call.Fun).(*ast.SelectorExpr)
+			if id, ok := k.lockOf(info, se.X, ops); ok {
+				deferredUnlocks = append(deferredUnlocks, defUnlock{d.Pos(), id})
+			}
+		}
+	})
 	// final pass: record accesses and descend into callees with the exact held sets
 	for _, b := range fl.G.Blocks {
 		st := an.in[b]
@@ -231,8 +248,19 @@ func (k *conc) explore(f *FuncInfo, held uint8, ops int, inGo bool) {
 				}
 				continue
 			case *ast.DeferStmt:
-				// the deferred call runs at exit with (at least) the locks held now minus nothing: descend with current set
-				k.descend(f, x.Call, csOf, s, ops, inGo)
+				// deferred calls run at exit in LIFO order: a deferred call registered BEFORE a `defer X.Unlock()` runs
+				// AFTER that unlock, i.e. without X
+				run := s
+				for _, d := range deferredUnlocks {
+					if d.pos > x.Pos() {
+						run &^= 1 << d.id
+					}
+				}
+				if lit, ok := x.Call.Fun.(*ast.FuncLit); ok {
+					k.explore(k.c.byLit[lit], run, ops, inGo)
+				} else {
+					k.descend(f, x.Call, csOf, run, ops, inGo)
+				}
 				s = effect(x.Call, s, true)
 				continue
 			}
